@@ -20,7 +20,8 @@ St(r) == [feats |-> AsSet(r.feats), label |-> r.label, uuid |-> r.uuid, blocks |
 ASSUME \A i \in 1..Len(Profiles) : UniverseOK(St(Profiles[i].state), Profiles[i].content)
 MCOps == StructuralOps \cup {K("E", "force_fsck", 0), K("L", "newlabel", 0), K("T", "20200101000000", 1577836800), K("m", "", 1)}
 
-Fsck(s, op) == {[s EXCEPT !.valid = 1, !.errfs = 0, !.mntcount = 0, !.lastcheck = FakeNow, !.feats = @ \cup x] : x \in SUBSET FsckMayRestore(op)}
+Fsck(s, op) == {[s EXCEPT !.valid = 1, !.errfs = 0, !.mntcount = 0, !.lastcheck = FakeNow, !.feats = @ \cup x,
+                         !.uuid = IF FsckAddsUuid(s) THEN "random" ELSE @] : x \in SUBSET FsckMayRestore(op)}
 Init == /\ st \in {St(Profiles[i].state) : i \in 1..Len(Profiles)}
         /\ n = 0 /\ stale = {} /\ hist = <<>>
 Next == /\ n < MaxLen
